@@ -103,6 +103,26 @@ def main():
     assert R.axis_weights(c, 4.5, 'nearest') == [0, 0, 1] and R.axis_weights(c, 13.0, 'linear') is None
     assert R.is_tie([0.1, 0.4, 1.0], 0.25) and not R.is_tie([0.1, 0.4, 1.0], 0.4)
     assert R.nearest_select([c], [[0.5, 0.25, 7.0]]) == [[1, 0, 2]]
+    assert R.axis_points([0.5], unit=0.25)[1:] == [0.375, 0.625, 0.4375, 0.5625]
+    # --- magnitude regimes: exact images of a grid, same weights
+    assert R.transform([0.0, 1.0, 3.0], 2.0 ** -30, 0.0) == [0.0, 2.0 ** -30, 3 * 2.0 ** -30]
+    assert R.transform([0.5, 1.5], 1.0, 2.0 ** 20) == [1048576.5, 1048577.5]
+    assert R.transform([0.1], 1.0, 2.0 ** 20) is None            # 2^20 + 0.1 is rounded
+    assert R.transform([0.1, 0.4], 2.0 ** 30) == [0.1 * 2 ** 30, 0.4 * 2 ** 30]
+    ct = R.transform(c, 2.0 ** -30, 0.0)
+    assert R.axis_weights(ct, 2.5 * 2.0 ** -30, 'linear') == [0, F(1, 4), F(3, 4)]
+    assert R.axis_weights(ct, -0.25 * 2.0 ** -30, 'linear') == [F(3, 4), 0, 0]
+    cf = R.transform(c, 1.0, 2.0 ** 20)
+    assert R.axis_weights(cf, 2.0 ** 20 + 2.0, 'nearest') == [0, 0, 1]
+    assert R.axis_weights(cf, 2.0 ** 20 + 3.5, 'linear') == [0, 0, F(3, 4)]
+    # --- orders of a point list: first, third and last of five points inside the hull
+    o = R.orderings(5, [True, False, True, False, True])
+    assert o['reversed'] == [4, 3, 2, 1, 0]
+    assert o['outside in the middle'] == [0, 1, 3, 2, 4]
+    assert o['outside first'] == [1, 3, 0, 2, 4]
+    assert o['rotated'] == [2, 3, 4, 0, 1] and o['interleaved'] == [0, 2, 4, 1, 3]
+    assert all(sorted(v) == [0, 1, 2, 3, 4] for v in o.values())
+    assert R.orderings(1, [True]) == {}
     print('test_c15_ref: ok')
 
 
